@@ -17,6 +17,8 @@ import (
 	"sync"
 	"time"
 
+	"pgregory.net/rapid"
+
 	"github.com/dolthub/dolt/go/store/blobstore"
 	bsgit "github.com/dolthub/dolt/go/store/blobstore/internal/git"
 	"github.com/dolthub/dolt/go/store/util/tempfiles"
@@ -235,6 +237,14 @@ func (s *c42Store) client(t c42Skipper) blobstore.Blobstore {
 	}
 	s.clients = append(s.clients, c)
 	return c
+}
+
+// c42Pct draws a number in [0,100) that is close to uniform: rapid's integer generators
+// favour small values, so the draw is mixed multiplicatively; 0 stays 0, so cases still
+// shrink towards the first alternative.
+func c42Pct(rt *rapid.T, label string) int {
+	x := rapid.Uint64().Draw(rt, label)
+	return int(((x * 0x9E3779B97F4A7C15) >> 33) % 100)
 }
 
 // c42Bytes is a position-dependent byte stream (xorshift64*), so that any shifted or
